@@ -58,7 +58,88 @@ impl<E: Eviction> Record<E> {
     pub fn key(&self) -> (r: &E::Key) ensures *r == self.spec_key() { unimplemented!() }
     #[verifier::external_body]
     pub fn properties(&self) -> (r: &E::Properties) ensures *r == self.spec_props() { unimplemented!() }
+    pub uninterp spec fn spec_value(&self) -> E::Value;
+    #[verifier::external_body]
+    pub fn value(&self) -> (r: &E::Value) ensures *r == self.spec_value() { unimplemented!() }
 }
+
+// ---- effect logs: the collaborators a dispatch loop talks to are modelled as state with a ghost log, so
+// "exactly once, in order, with the right reason" is a postcondition. In the real code they are
+// `Option<Arc<dyn EventListener>>` / `Arc<dyn Pipe>` behind `&self`; a dispatch region owns them sequentially.
+pub struct ListenerT<E: Eviction> { pub left: Ghost<Seq<(Event, E::Key, E::Value)>> }
+impl<E: Eviction> ListenerT<E> {
+    #[verifier::external_body]
+    pub fn on_leave(&mut self, reason: Event, key: &E::Key, value: &E::Value)
+        ensures final(self).left@ == old(self).left@.push((reason, *key, *value)),
+    { }
+}
+pub struct ListenerSlot<E: Eviction> { pub l: Option<ListenerT<E>> }
+impl<E: Eviction> ListenerSlot<E> {
+    pub open spec fn log(&self) -> Seq<(Event, E::Key, E::Value)> { if self.l.is_some() { self.l.unwrap().left@ } else { Seq::empty() } }
+    #[verifier::external_body]
+    pub fn is_some(&self) -> (b: bool) ensures b == self.l.is_some() { unimplemented!() }
+    #[verifier::external_body]
+    pub fn as_ref(&mut self) -> (r: Option<&mut ListenerT<E>>)
+        ensures
+            old(self).l.is_some() == r.is_some(),
+            r.is_some() ==> *r.unwrap() == old(self).l.unwrap() && final(self).l == Some(*final(r.unwrap())),
+            r.is_none() ==> final(self).l == old(self).l,
+    { unimplemented!() }
+}
+#[verifier::external_body]
+#[verifier::accept_recursive_types(E)]
+pub struct Piece<E> { _p: core::marker::PhantomData<E> }
+impl<E: Eviction> Piece<E> {
+    pub uninterp spec fn rec(&self) -> Arc<Record<E>>;
+    #[verifier::external_body]
+    pub fn new(record: Arc<Record<E>>) -> (r: Self) ensures r.rec() == record { unimplemented!() }
+}
+pub struct PipeT<E: Eviction> { pub enabled: bool, pub sent: Ghost<Seq<Arc<Record<E>>>>, pub flushed: Ghost<Seq<Arc<Record<E>>>> }
+impl<E: Eviction> PipeT<E> {
+    #[verifier::external_body]
+    pub fn is_enabled(&self) -> (b: bool) ensures b == self.enabled { unimplemented!() }
+    #[verifier::external_body]
+    pub fn send(&mut self, piece: Piece<E>)
+        ensures final(self).sent@ == old(self).sent@.push(piece.rec()), final(self).enabled == old(self).enabled, final(self).flushed@ == old(self).flushed@,
+    { }
+    #[verifier::external_body]
+    pub fn flush(&mut self, pieces: Vec<Piece<E>>)
+        ensures final(self).flushed@ == old(self).flushed@ + pieces@.map_values(|p: Piece<E>| p.rec()), final(self).enabled == old(self).enabled, final(self).sent@ == old(self).sent@,
+    { }
+}
+/// stands for `garbages.into_iter().map(|(_, record)| Piece::new(record)).collect_vec()` (iterator adapters + closure)
+#[verifier::external_body]
+pub fn pieces_of<E: Eviction>(garbages: Vec<(Event, Arc<Record<E>>)>) -> (r: Vec<Piece<E>>)
+    ensures r@.map_values(|p: Piece<E>| p.rec()) == garbages@.map_values(|x: (Event, Arc<Record<E>>)| x.1),
+{ unimplemented!() }
+pub struct InnerT<E: Eviction> { pub event_listener: ListenerSlot<E> }
+pub struct CacheT<E: Eviction> { pub pipe: PipeT<E>, pub inner: InnerT<E> }
+
+/// notifications a garbage list must produce, in order
+pub open spec fn notes_of<E: Eviction>(g: Seq<(Event, Arc<Record<E>>)>) -> Seq<(Event, E::Key, E::Value)> {
+    g.map_values(|x: (Event, Arc<Record<E>>)| (x.0, x.1.spec_key(), x.1.spec_value()))
+}
+/// records a garbage list must hand to the disk tier, in order: exactly the capacity evictions
+pub open spec fn evicted_of<E: Eviction>(g: Seq<(Event, Arc<Record<E>>)>) -> Seq<Arc<Record<E>>>
+    decreases g.len()
+{
+    if g.len() == 0 { Seq::empty() } else {
+        let p = evicted_of(g.drop_last());
+        if g.last().0 == Event::Evict { p.push(g.last().1) } else { p }
+    }
+}
+pub proof fn lemma_evicted_of_push<E: Eviction>(g: Seq<(Event, Arc<Record<E>>)>, x: (Event, Arc<Record<E>>))
+    ensures evicted_of(g.push(x)) == (if x.0 == Event::Evict { evicted_of(g).push(x.1) } else { evicted_of(g) }),
+{
+    assert(g.push(x).drop_last() =~= g);
+}
+pub proof fn lemma_prefix_step<T>(s: Seq<T>, i: int)
+    requires 0 <= i < s.len(),
+    ensures s.subrange(0, i + 1) == s.subrange(0, i).push(s[i]),
+{
+    assert(s.subrange(0, i + 1) =~= s.subrange(0, i).push(s[i]));
+}
+
 
 /// contract of the eviction container exactly as documented on `trait Eviction` (eviction/mod.rs):
 /// push: caller guarantees the record is NOT held; pop: returns a held record and releases it;
@@ -67,6 +148,7 @@ impl<E: Eviction> Record<E> {
 /// documented obligation of every implementation, checked on the real code in unit `evict`).
 pub trait Eviction: Sized {
     type Key: Key;
+    type Value;
     type Properties: Properties;
     spec fn contents(&self) -> Set<int>;
     /// whether `pop` can still produce a victim (false e.g. when everything left is pinned under LRU)
@@ -585,5 +667,249 @@ where
 //@end
 
 } // impl
+
+// =====================================================================================================
+// garbage dispatch (C13): listener notified once per garbage with its event, pipe gets exactly the Evict ones
+// =====================================================================================================
+impl<E: Eviction> CacheT<E> {
+    pub open spec fn dispatched(&self, before: &Self, garbages: Seq<(Event, Arc<Record<E>>)>) -> bool {
+        &&& self.pipe.enabled == before.pipe.enabled
+        &&& self.inner.event_listener.l.is_some() == before.inner.event_listener.l.is_some()
+        &&& (before.inner.event_listener.l.is_some() ==> self.inner.event_listener.log() == before.inner.event_listener.log() + notes_of(garbages))
+        &&& (before.pipe.enabled ==> self.pipe.sent@ == before.pipe.sent@ + evicted_of(garbages))
+        &&& (!before.pipe.enabled ==> self.pipe.sent@ == before.pipe.sent@)
+    }
+
+//@region foyer-memory/src/raw.rs :: impl~^impl<E, S, I> RawCache<E, S, I> where/fn insert_inner name=insert_inner_dispatch start=/let piped = self\.pipe\.is_enabled\(\);/ end=/if self\.inner\.event_listener\.is_some\(\) \|\| piped/ rules=for-tuple-pattern
+//@head
+    fn insert_inner_dispatch(&mut self, garbages: Vec<(Event, Arc<Record<E>>)>)
+        ensures final(self).dispatched(old(self), garbages@), // @label each_garbage_notified_once_and_only_evictions_piped
+//@loop 1 iter=it
+                invariant
+                    piped == old(self).pipe.enabled,
+                    self.pipe.enabled == old(self).pipe.enabled,
+                    self.inner.event_listener.l.is_some() == old(self).inner.event_listener.l.is_some(),
+                    old(self).inner.event_listener.l.is_some() ==> self.inner.event_listener.log() == old(self).inner.event_listener.log() + notes_of(garbages@.subrange(0, it.index@ as int)),
+                    piped ==> self.pipe.sent@ == old(self).pipe.sent@ + evicted_of(garbages@.subrange(0, it.index@ as int)),
+                    !piped ==> self.pipe.sent@ == old(self).pipe.sent@,
+//@after /let \(event, record\) = verif_item;/
+                proof {
+                    lemma_prefix_step(garbages@, it.index@ as int);
+                    lemma_evicted_of_push(garbages@.subrange(0, it.index@ as int), verif_item);
+                    assert(notes_of(garbages@.subrange(0, it.index@ + 1)) =~= notes_of(garbages@.subrange(0, it.index@ as int)).push((verif_item.0, verif_item.1.spec_key(), verif_item.1.spec_value())));
+                }
+//@tail
+        proof {
+            assert(garbages@.subrange(0, garbages@.len() as int) == garbages@);
+            if !(old(self).inner.event_listener.l.is_some() || old(self).pipe.enabled) { }
+        }
+//@end
+
+//@region foyer-memory/src/raw.rs :: impl~^impl<E, S, I> RawCache<E, S, I> where/fn evict_all name=evict_all_dispatch start=/let piped = self\.pipe\.is_enabled\(\);/ end=/if self\.inner\.event_listener\.is_some\(\) \|\| piped/ rules=for-tuple-pattern
+//@head
+    fn evict_all_dispatch(&mut self, garbages: Vec<(Event, Arc<Record<E>>)>)
+        ensures final(self).dispatched(old(self), garbages@), // @label each_garbage_notified_once_and_only_evictions_piped
+//@loop 1 iter=it
+                invariant
+                    piped == old(self).pipe.enabled,
+                    self.pipe.enabled == old(self).pipe.enabled,
+                    self.inner.event_listener.l.is_some() == old(self).inner.event_listener.l.is_some(),
+                    old(self).inner.event_listener.l.is_some() ==> self.inner.event_listener.log() == old(self).inner.event_listener.log() + notes_of(garbages@.subrange(0, it.index@ as int)),
+                    piped ==> self.pipe.sent@ == old(self).pipe.sent@ + evicted_of(garbages@.subrange(0, it.index@ as int)),
+                    !piped ==> self.pipe.sent@ == old(self).pipe.sent@,
+//@after /let \(event, record\) = verif_item;/
+                proof {
+                    lemma_prefix_step(garbages@, it.index@ as int);
+                    lemma_evicted_of_push(garbages@.subrange(0, it.index@ as int), verif_item);
+                    assert(notes_of(garbages@.subrange(0, it.index@ + 1)) =~= notes_of(garbages@.subrange(0, it.index@ as int)).push((verif_item.0, verif_item.1.spec_key(), verif_item.1.spec_value())));
+                }
+//@tail
+        proof { assert(garbages@.subrange(0, garbages@.len() as int) == garbages@); }
+//@end
+
+// ---- RawCache::flush: listener loop, then all evicted records handed to pipe.flush
+//@region foyer-memory/src/raw.rs :: impl~^impl<E, S, I> RawCache<E, S, I> where/fn flush name=flush_notify start=/if let Some\(listener\) = self\.inner\.event_listener\.as_ref\(\) \{\s*\n\s*for \(event, record\) in garbages\.iter\(\)/ end=/if let Some\(listener\) = self\.inner\.event_listener\.as_ref\(\) \{\s*\n\s*for \(event, record\) in garbages\.iter\(\)/ rules=for-tuple-pattern
+//@head
+    fn flush_notify(&mut self, garbages: &Vec<(Event, Arc<Record<E>>)>)
+        ensures
+            final(self).pipe == old(self).pipe, // @label notify_phase_sends_nothing
+            final(self).inner.event_listener.l.is_some() == old(self).inner.event_listener.l.is_some(),
+            old(self).inner.event_listener.l.is_some() ==> final(self).inner.event_listener.log() == old(self).inner.event_listener.log() + notes_of(garbages@), // @label each_flushed_record_notified_once_with_its_event
+//@loop 1 iter=it
+                invariant
+                    listener.left@ == l0 + notes_of(garbages@.subrange(0, it.index@ as int)),
+//@before /for verif_item in/
+            let ghost l0 = listener.left@;
+//@after /let \(event, record\) = verif_item;/
+                proof {
+                    lemma_prefix_step(garbages@, it.index@ as int);
+                    assert(notes_of(garbages@.subrange(0, it.index@ + 1)) =~= notes_of(garbages@.subrange(0, it.index@ as int)).push((verif_item.0, verif_item.1.spec_key(), verif_item.1.spec_value())));
+                }
+//@tail
+        proof { assert(garbages@.subrange(0, garbages@.len() as int) == garbages@); }
+//@end
+
+// ---- RawCache::flush hand-off: every evicted record goes to pipe.flush exactly once (C15)
+// the iterator-adapter line `garbages.into_iter().map(|(_, record)| Piece::new(record)).collect_vec()` is outside
+// Verus; it is replaced by the prelude function `pieces_of` (assumed: one piece per garbage record, in order)
+//@region foyer-memory/src/raw.rs :: impl~^impl<E, S, I> RawCache<E, S, I> where/fn flush name=flush_handoff start=/if piped \{\s*\n\s*let pieces = garbages\.into_iter\(\)/ end=/if piped \{\s*\n\s*let pieces = garbages\.into_iter\(\)/ rules=de-async sub=@garbages\.into_iter\(\)\.map\(\|\(_, record\)\| Piece::new\(record\)\)\.collect_vec\(\)@pieces_of(garbages)@
+//@head
+    fn flush_handoff(&mut self, piped: bool, garbages: Vec<(Event, Arc<Record<E>>)>)
+        requires piped == old(self).pipe.enabled,
+        ensures
+            final(self).pipe.enabled == old(self).pipe.enabled,
+            final(self).pipe.sent@ == old(self).pipe.sent@, // @label flush_does_not_use_send
+            old(self).pipe.enabled ==> final(self).pipe.flushed@ == old(self).pipe.flushed@ + garbages@.map_values(|x: (Event, Arc<Record<E>>)| x.1), // @label every_flushed_record_handed_to_pipe_once
+            !old(self).pipe.enabled ==> final(self).pipe.flushed@ == old(self).pipe.flushed@, // @label nothing_handed_over_when_pipe_disabled
+//@end
+}
+
+// ---- RawCache::resize, per-shard closure body: capacity updated, then evict to the new capacity (C05)
+//@region foyer-memory/src/raw.rs :: impl~^impl<E, S, I> RawCache<E, S, I> where/fn resize name=resize_shard start=/shard\.capacity = shard_capacity;/ end=/shard\.evict\(shard_capacity, &mut garbages\)/ sub=@&mut garbages@garbages@
+//@head
+fn resize_shard<E: Eviction, S, I: Indexer<Eviction = E>>(shard: &mut RawCacheShard<E, S, I>, shard_capacity: usize, garbages: &mut Vec<(Event, Arc<Record<E>>)>)
+    requires old(shard).wf(),
+    ensures
+        final(shard).wf(), // @label accounting_invariant_preserved
+        final(shard).capacity == shard_capacity, // @label capacity_updated
+        final(shard).usage <= shard_capacity || (!final(shard).eviction.poppable() && final(shard).eviction.victims().is_empty()), // @label bound_reestablished_for_new_capacity
+        old(shard).usage <= shard_capacity ==> final(shard).view() == old(shard).view() && final(garbages)@ == old(garbages)@, // @label no_eviction_when_it_already_fits
+        forall|i: int| old(garbages)@.len() <= i < final(garbages)@.len() ==> (#[trigger] final(garbages)@[i]).0 == Event::Evict, // @label resize_victims_are_evictions
+//@end
+
+//@region foyer-memory/src/raw.rs :: impl~^impl<E, S, I> RawCache<E, S, I> where/fn resize name=resize_dispatch start=/let piped = pipe\.is_enabled\(\);/ end=/if inner\.event_listener\.is_some\(\) \|\| piped/ rules=for-tuple-pattern
+//@head
+fn resize_dispatch<E: Eviction>(inner: &mut InnerT<E>, pipe: &mut PipeT<E>, garbages: Vec<(Event, Arc<Record<E>>)>)
+    ensures
+        final(pipe).enabled == old(pipe).enabled,
+        final(inner).event_listener.l.is_some() == old(inner).event_listener.l.is_some(),
+        old(inner).event_listener.l.is_some() ==> final(inner).event_listener.log() == old(inner).event_listener.log() + notes_of(garbages@), // @label each_garbage_notified_once
+        old(pipe).enabled ==> final(pipe).sent@ == old(pipe).sent@ + evicted_of(garbages@), // @label exactly_the_evictions_piped
+        !old(pipe).enabled ==> final(pipe).sent@ == old(pipe).sent@, // @label nothing_piped_when_disabled
+//@loop 1 iter=it
+                invariant
+                    piped == old(pipe).enabled,
+                    pipe.enabled == old(pipe).enabled,
+                    inner.event_listener.l.is_some() == old(inner).event_listener.l.is_some(),
+                    old(inner).event_listener.l.is_some() ==> inner.event_listener.log() == old(inner).event_listener.log() + notes_of(garbages@.subrange(0, it.index@ as int)),
+                    piped ==> pipe.sent@ == old(pipe).sent@ + evicted_of(garbages@.subrange(0, it.index@ as int)),
+                    !piped ==> pipe.sent@ == old(pipe).sent@,
+//@after /let \(event, record\) = verif_item;/
+                proof {
+                    lemma_prefix_step(garbages@, it.index@ as int);
+                    lemma_evicted_of_push(garbages@.subrange(0, it.index@ as int), verif_item);
+                    assert(notes_of(garbages@.subrange(0, it.index@ + 1)) =~= notes_of(garbages@.subrange(0, it.index@ as int)).push((verif_item.0, verif_item.1.spec_key(), verif_item.1.spec_value())));
+                }
+//@tail
+        proof { assert(garbages@.subrange(0, garbages@.len() as int) == garbages@); }
+//@end
+
+// ---- RawCache::remove: one Remove notification for the removed record, nothing piped
+//@region foyer-memory/src/raw.rs :: impl~^impl<E, S, I> RawCache<E, S, I> where/fn remove name=remove_notify start=/if let Some\(listener\) = self\.inner\.event_listener\.as_ref\(\) \{\s*\n\s*listener\.on_leave\(Event::Remove/ end=/if let Some\(listener\) = self\.inner\.event_listener\.as_ref\(\) \{\s*\n\s*listener\.on_leave\(Event::Remove/
+//@head
+impl<E: Eviction> CacheT<E> {
+    fn remove_notify(&mut self, record: &Arc<Record<E>>)
+        ensures
+            final(self).pipe == old(self).pipe, // @label removed_entry_not_piped
+            final(self).inner.event_listener.l.is_some() == old(self).inner.event_listener.l.is_some(),
+            old(self).inner.event_listener.l.is_some() ==>
+                final(self).inner.event_listener.log() == old(self).inner.event_listener.log().push((Event::Remove, record.spec_key(), record.spec_value())), // @label one_remove_notification
+//@end
+}
+
+// ---- RawCacheInner::clear: one Clear notification per cleared record, nothing piped
+//@region foyer-memory/src/raw.rs :: impl~^impl<E, S, I> RawCacheInner<E, S, I> where/fn clear name=clear_notify start=/if let Some\(listener\) = self\.event_listener\.as_ref\(\)/ end=/if let Some\(listener\) = self\.event_listener\.as_ref\(\)/
+//@head
+impl<E: Eviction> InnerT<E> {
+    fn clear_notify(&mut self, garbages: Vec<Arc<Record<E>>>)
+        ensures
+            final(self).event_listener.l.is_some() == old(self).event_listener.l.is_some(),
+            old(self).event_listener.l.is_some() ==>
+                final(self).event_listener.log() == old(self).event_listener.log() + garbages@.map_values(|r: Arc<Record<E>>| (Event::Clear, r.spec_key(), r.spec_value())), // @label one_clear_notification_per_cleared_record
+//@loop 1 iter=it
+                invariant
+                    listener.left@ == l0 + garbages@.subrange(0, it.index@ as int).map_values(|r: Arc<Record<E>>| (Event::Clear, r.spec_key(), r.spec_value())),
+//@before /for record in/
+            let ghost l0 = listener.left@;
+//@after /listener\.on_leave\(Event::Clear/
+                proof {
+                    lemma_prefix_step(garbages@, it.index@ as int);
+                    assert(garbages@.subrange(0, it.index@ + 1).map_values(|r: Arc<Record<E>>| (Event::Clear, r.spec_key(), r.spec_value()))
+                        =~= garbages@.subrange(0, it.index@ as int).map_values(|r: Arc<Record<E>>| (Event::Clear, r.spec_key(), r.spec_value())).push((Event::Clear, record.spec_key(), record.spec_value())));
+                }
+//@tail
+        proof { assert(garbages@.subrange(0, garbages@.len() as int) == garbages@); }
+//@end
+}
+
+// ---- RawCacheEntry::drop, last reference of a phantom (disk-only / filtered) entry: one Evict notification and one
+// hand-off to the pipe (C12, C13)
+pub struct EntryT<E: Eviction> { pub pipe: PipeT<E>, pub inner: InnerT<E>, pub record: Arc<Record<E>> }
+//@region foyer-memory/src/raw.rs :: impl~Drop for RawCacheEntry/fn drop name=entry_drop_phantom start=/if self\.record\.properties\(\)\.phantom\(\)\.unwrap_or_default\(\) \{/ end=/if self\.record\.properties\(\)\.phantom\(\)\.unwrap_or_default\(\) \{/
+//@head
+impl<E: Eviction> EntryT<E> {
+    fn entry_drop_phantom(&mut self)
+        ensures
+            final(self).record == old(self).record,
+            final(self).pipe.enabled == old(self).pipe.enabled,
+            final(self).inner.event_listener.l.is_some() == old(self).inner.event_listener.l.is_some(),
+            old(self).record.spec_props().spec_phantom() == Some(true) && old(self).inner.event_listener.l.is_some() ==>
+                final(self).inner.event_listener.log() == old(self).inner.event_listener.log().push((Event::Evict, old(self).record.spec_key(), old(self).record.spec_value())), // @label phantom_last_drop_notifies_evict_once
+            old(self).record.spec_props().spec_phantom() == Some(true) && old(self).pipe.enabled ==>
+                final(self).pipe.sent@ == old(self).pipe.sent@.push(old(self).record), // @label phantom_last_drop_piped_once
+            old(self).record.spec_props().spec_phantom() == Some(true) && !old(self).pipe.enabled ==>
+                final(self).pipe.sent@ == old(self).pipe.sent@, // @label phantom_not_piped_when_disabled
+            old(self).record.spec_props().spec_phantom() != Some(true) ==>
+                final(self).pipe.sent@ == old(self).pipe.sent@ && final(self).inner.event_listener.l == old(self).inner.event_listener.l, // @label ordinary_entry_drop_has_no_leave_effects
+//@end
+}
+
+// ---- RawCache::shard_capacity_for: shares add up to the configured capacity (C05)
+pub assume_specification[ <usize as From<bool>>::from ](b: bool) -> (r: usize)
+    ensures r == (if b { 1usize } else { 0usize });
+pub open spec fn share(total: nat, shards: nat, index: nat) -> nat { total / shards + if index < total % shards { 1nat } else { 0nat } }
+pub open spec fn share_sum(total: nat, shards: nat, n: nat) -> nat decreases n { if n == 0 { 0 } else { share_sum(total, shards, (n - 1) as nat) + share(total, shards, (n - 1) as nat) } }
+proof fn lemma_share_sum(total: nat, shards: nat, n: nat)
+    requires shards > 0, n <= shards,
+    ensures share_sum(total, shards, n) == n * (total / shards) + if n < total % shards { n } else { total % shards },
+    decreases n,
+{
+    if n > 0 {
+        lemma_share_sum(total, shards, (n - 1) as nat);
+        let q = total / shards; let m = (n - 1) as nat; let rem = total % shards;
+        assert(n * q == m * q + q) by (nonlinear_arith) requires m + 1 == n;
+        assert(share_sum(total, shards, n) == share_sum(total, shards, m) + share(total, shards, m));
+        assert(share_sum(total, shards, m) == m * q + if m < rem { m } else { rem });
+        assert(share(total, shards, m) == q + if m < rem { 1nat } else { 0nat });
+        if m < rem { assert(share_sum(total, shards, n) == n * q + n); } else { assert(share_sum(total, shards, n) == n * q + rem); }
+    } else { assert(share_sum(total, shards, 0) == 0); assert(0 * (total / shards) == 0); }
+}
+proof fn lemma_shard_capacities_add_up_to_total(total: nat, shards: nat)
+    requires shards > 0,
+    ensures share_sum(total, shards, shards) == total, // @label shard_capacities_sum_to_configured_capacity
+{
+    lemma_share_sum(total, shards, shards);
+    assert(total % shards < shards) by (nonlinear_arith) requires shards > 0;
+    assert(total == shards * (total / shards) + total % shards) by (nonlinear_arith) requires shards > 0;
+}
+//@fn foyer-memory/src/raw.rs :: impl~^impl<E, S, I> RawCache<E, S, I> where/fn shard_capacity_for ret=r
+//@spec
+    requires shards > 0,
+    ensures r == share(total as nat, shards as nat, index as nat), // @label share_is_floor_plus_one_for_the_first_remainder_shards
+//@before /base \+ usize::from/
+        proof { assert(remainder > 0 ==> base < usize::MAX) by (nonlinear_arith) requires shards > 0, base == total / shards, remainder == total % shards, total <= usize::MAX; }
+//@end
+
+// ---- RawCacheEntry::is_outdated (C18): true exactly when the shard index no longer holds this record
+// (`is_in_indexer` flag <=> index membership: rule flag-as-membership, wrapper supplies the shard's index)
+#[verifier::reject_recursive_types(E)]
+#[verifier::reject_recursive_types(I)]
+pub struct OutdatedCtx<E: Eviction, I: Indexer<Eviction = E>> { pub record: Arc<Record<E>>, pub indexer: I }
+impl<E: Eviction, I: Indexer<Eviction = E>> OutdatedCtx<E, I> {
+//@fn foyer-memory/src/raw.rs :: impl~^impl<E, S, I> RawCacheEntry<E, S, I> where/fn is_outdated ret=r sub=@self\.record\.is_in_indexer\(\)@self.indexer.holds(&self.record)@
+//@spec
+        ensures r == !(self.indexer.view().contains_key(self.record.spec_key()) && self.indexer.view()[self.record.spec_key()].id() == self.record.id()), // @label outdated_iff_lookup_no_longer_returns_this_entry
+//@end
+}
 
 } // verus!
